@@ -1,4 +1,5 @@
 import TD.C04.Lemmas
+import TD.C04.SliceNeg
 
 /-!
 # C04 — DLIS frame arrays hold exactly the recorded values; sub-selection commutes
@@ -12,14 +13,34 @@ namespace TD.C04
 open TD.C03 (Bytes Value ObName Rec)
 open TD.C15 (Selector)
 
-/-- the selectors the property quantifies over: every frame, a slice with a positive step, a sample of at least one -/
+/-- the selectors the property quantifies over: every frame, every Python slice (any non-zero step, **negative steps
+included** — `slice(start, stop, 0)` is a `ValueError` in Python itself), a sample of at least one -/
 def selOk : Option Selector → Prop
   | none => True
-  | some (.slice _ _ c) => 0 < c.getD 1
+  | some (.slice _ _ c) => c.getD 1 ≠ 0
   | some (.sample s) => 0 < s
 
+/-- **What a slice selects, and in which order** (both signs of the step).  The frame indexes generated for
+`Slice(start, stop, step)` are exactly `list(range(n))[start:stop:step]`: for a positive step the increasing
+enumeration of the positions between the clamped bounds (C15 `slice_indices_eq_python`), for a negative step the
+*decreasing* enumeration from the clamped start down to above the clamped stop — so rows are populated in reverse
+order — and the reported count is the length of that list. -/
+theorem slice_selects_python (a b c : Option Int) (n : Nat) (h : c.getD 1 ≠ 0) :
+    ∃ l, TD.C15.sliceIndices a b c n = .ok l ∧ TD.C15.sliceCount a b c n = .ok l.length ∧
+      (0 < c.getD 1 → l = (((List.range n).map (fun (k : Nat) => (k : Int))).filter
+          (fun i => decide (TD.C15.pyBound a 0 n ≤ i ∧ i < TD.C15.pyBound b n n ∧
+            (i - TD.C15.pyBound a 0 n) % (c.getD 1) = 0)))) ∧
+      (c.getD 1 < 0 → l = ((((List.range n).map (fun (k : Nat) => (k : Int))).reverse).filter
+          (fun i => decide (pyBoundNeg b (-1) n < i ∧ i ≤ pyBoundNeg a ((n : Int) - 1) n ∧
+            (pyBoundNeg a ((n : Int) - 1) n - i) % (-(c.getD 1)) = 0)))) := by
+  rcases Int.lt_or_gt_of_ne h with hneg | hpos
+  · have h1 := slice_indices_eq_python_neg a b c n hneg
+    refine ⟨_, h1, by simp [TD.C15.sliceCount, h1], fun hp => by omega, fun _ => rfl⟩
+  · have h1 := TD.C15.slice_indices_eq_python a b c n hpos
+    refine ⟨_, h1, by simp [TD.C15.sliceCount, h1], fun _ => rfl, fun hn => by omega⟩
+
 /-- The frame indexes a selector yields are inside the frame range and their number is the reported count
-(from C15: `slice_indices_mem_iff`, `sample_count`, `sample_shape`). -/
+(from C15: `slice_indices_mem_iff`, `sample_count`, `sample_shape`; negative steps: `slice_indices_mem_iff_neg`). -/
 theorem selector_indices (sel : Option Selector) (n : Nat) (h : selOk sel) :
     ∃ idx cnt, selIndices sel n = .ok (idx, cnt) ∧ (∀ i ∈ idx, i < n) ∧ idx.length = cnt := by
   cases sel with
@@ -27,7 +48,13 @@ theorem selector_indices (sel : Option Selector) (n : Nat) (h : selOk sel) :
   | some s =>
     cases s with
     | slice a b c =>
-      obtain ⟨l, hl, _, _, hb⟩ := TD.C15.slice_indices_mem_iff a b c n h
+      have hl' : ∃ l, TD.C15.sliceIndices a b c n = .ok l ∧ ∀ i ∈ l, 0 ≤ i ∧ i < n := by
+        rcases Int.lt_or_gt_of_ne (show c.getD 1 ≠ 0 from h) with hneg | hpos
+        · obtain ⟨l, hl, _, _, hb⟩ := slice_indices_mem_iff_neg a b c n hneg
+          exact ⟨l, hl, hb⟩
+        · obtain ⟨l, hl, _, _, hb⟩ := TD.C15.slice_indices_mem_iff a b c n hpos
+          exact ⟨l, hl, hb⟩
+      obtain ⟨l, hl, hb⟩ := hl'
       refine ⟨l.map Int.toNat, l.length, ?_, ?_, by simp⟩
       · simp [selIndices, TD.C15.sliceCount, hl]
       · intro i hi
@@ -288,5 +315,7 @@ example : rowsOf 0 (framesIn exItems) = [[[.word 2 1065353216], [.int 1, .int (-
 example : (indexIflrs exLp 0 (exItems.map (toRec exLp)) []).toOption.map (fun m => m.map (fun e => e.2.map (fun r => (r.pos, r.frameNo)))) =
     some [[(0, 1), (4, 2)], [(2, 1)]] := by rfl
 example : selOk (some (.slice (some 1) none (some 2))) := by simp [selOk]
+example : selOk (some (.slice (some 25) (some 3) (some (-4)))) := by simp [selOk]
+example : TD.C15.sliceIndices (some 25) (some 3) (some (-4)) 10 = .ok [9, 5] := by decide
 
 end TD.C04
